@@ -42,7 +42,7 @@ def main():
             out['demo_mutant'] = sh(['/venv/bin/python', '-B', demo], env=env, cwd=wt, timeout=300)[0]
         out['checks'] = {}
         for pid in props:
-            env2 = dict(os.environ, PAMQP_REPO=wt)
+            env2 = dict(os.environ, PAMQP_REPO=wt, VERIF_OUT=os.environ.get('VERIF_OUT') or (wt + '_out'))
             try:
                 rc, o = sh([os.path.join(ROOT, 'check'), pid, '--tier', 'quick'], env=env2, timeout=1200)
             except subprocess.TimeoutExpired:
@@ -55,6 +55,7 @@ def main():
     finally:
         sh(['git', '-C', '/repo', 'worktree', 'remove', '--force', wt])
         shutil.rmtree(wt, ignore_errors=True)
+        shutil.rmtree(wt + '_out', ignore_errors=True)
         # restore the generated data and build state for /repo itself
         sh([sys.executable, "-B", os.path.join(ROOT, "tools", "translate.py")], cwd=ROOT)
     print(json.dumps({k: v for k, v in out.items() if k != 'checks'}))
